@@ -56,6 +56,10 @@ VerifyWith(sg, m, k, hlen) ==
 \* its accepting the compressed-key flag; rejecting those equivalent encodings would be stricter, not wrong
 Definite(sg) == sg.s # "neg" /\ sg.v # "comp"
 
+\* data types whose own checks in Verify() fail, whatever the signature: call without data / without a method, deploy without
+\* data / with a value, patch without data / of an unknown type, deposit without data, negative value or step limit
+IllFormed == {"call_nodata", "call_nomethod", "deploy_nodata", "deploy_value", "patch_nodata", "patch_badtype", "deposit_nodata",
+              "neg_value", "neg_step"}
 \* Transaction.Verify() of a transaction with id m, from field derived from key `claimed`, carrying sg
 Accepts(claimed, ff, m, sg) ==
   /\ Parses(sg) /\ sg.len = 65
@@ -74,8 +78,8 @@ Submit(kind, dt, claimed, ff, m, sg) ==
   /\ kind = "v2" => dt = "none"
   /\ dt # "none" => Treats(sg) <= 1
   /\ hist' = Append(hist, [Rec("submit", claimed, ff, m, sg, "", 32,
-                               IF ~Parses(sg) THEN "reject-parse" ELSE IF Accepts(claimed, ff, m, sg) THEN "accept" ELSE "reject",
-                               Definite(sg) \/ ~Accepts(claimed, ff, m, sg)) EXCEPT !.kind = kind, !.dt = dt])
+                               IF ~Parses(sg) THEN "reject-parse" ELSE IF Accepts(claimed, ff, m, sg) /\ dt \notin IllFormed THEN "accept" ELSE "reject",
+                               Definite(sg) \/ ~Accepts(claimed, ff, m, sg) \/ dt \in IllFormed) EXCEPT !.kind = kind, !.dt = dt])
 \* crypto.NewSignature(hash, key) then RecoverPublicKey(hash') and Verify(hash', pub)
 RecoverOp(sg, m, hlen) ==
   /\ Parses(sg) /\ sg.len # 0
@@ -112,11 +116,13 @@ OnlySender ==
 EveryTypeGuarded ==
   \A i \in 1..Len(hist) :
      (hist[i].op = "submit" /\ (hist[i].sig.k # hist[i].claimed \/ hist[i].sig.m # hist[i].m \/ hist[i].ff # "addr")) => hist[i].res # "accept"
+\* an ill-formed payload is never accepted, not even with the sender's genuine signature
+IllFormedRejected == \A i \in 1..Len(hist) : (hist[i].op = "submit" /\ hist[i].dt \in IllFormed) => hist[i].res # "accept"
 \* and the genuine signature is always accepted
 SenderAccepted ==
   \A i \in 1..Len(hist) :
      (hist[i].op = "submit" /\ Untouched(hist[i].sig) /\ hist[i].sig.k = hist[i].claimed /\ hist[i].sig.m = hist[i].m
-        /\ hist[i].ff = "addr") => hist[i].res = "accept"
+        /\ hist[i].ff = "addr" /\ hist[i].dt \notin IllFormed) => hist[i].res = "accept"
 \* signing and recovery round-trip for every key and message
 RoundTrips ==
   \A i \in 1..Len(hist) :
